@@ -42,6 +42,7 @@ var concSources = []string{
 type concShard struct {
 	Srcs    []int    `json:"srcs"`
 	Bound   int      `json:"bound"`
+	Solo    []string `json:"solo,omitempty"`    // verdict of each source parsed alone (computed by the parent)
 	Choices []int    `json:"choices,omitempty"` // set in replay artefacts
 	Sites   []string `json:"sites,omitempty"`
 }
@@ -80,10 +81,9 @@ func concWorker(w *pool.W, arg json.RawMessage) {
 	var sh concShard
 	json.Unmarshal(arg, &sh)
 	w.Item(sh.String())
-	solo := make([]string, len(sh.Srcs))
-	for i, s := range sh.Srcs {
-		solo[i] = parseVerdict(concSources[s])
-	}
+	// the solo verdicts come from the parent: parsing anything here before the exploration would
+	// warm every lazily filled package-level cache and hide exactly the accesses under test
+	solo := sh.Solo
 	var got []string
 	setup := func() []sched.Body {
 		got = make([]string, len(sh.Srcs))
@@ -163,20 +163,32 @@ func lastN(s []string, n int) []string {
 func concShards(quick bool) []pool.Shard {
 	var out []pool.Shard
 	n := len(concSources)
-	pb := 2
+	soloOf := make([]string, n)
+	for i, s := range concSources {
+		soloOf[i] = parseVerdict(s)
+	}
+	solo := func(ix ...int) (o []string) {
+		for _, i := range ix {
+			o = append(o, soloOf[i])
+		}
+		return
+	}
+	// lazily initialised shared state shows in the first (cold) execution whatever the schedule, the
+	// race oracle being happens-before based; the bound only matters for torn check-then-act windows
+	pb := 1
 	if !quick {
-		pb = 3
+		pb = 2
 	}
 	for a := 0; a < n; a++ {
 		for b := a; b < n; b++ {
-			out = append(out, pool.Shard{Kind: "conc", Arg: concShard{Srcs: []int{a, b}, Bound: pb}})
+			out = append(out, pool.Shard{Kind: "conc", Arg: concShard{Srcs: []int{a, b}, Bound: pb, Solo: solo(a, b)}})
 		}
 	}
 	if !quick {
 		for a := 0; a < n; a++ {
 			for b := a; b < n; b++ {
 				for c := b; c < n; c++ {
-					out = append(out, pool.Shard{Kind: "conc", Arg: concShard{Srcs: []int{a, b, c}, Bound: 1}})
+					out = append(out, pool.Shard{Kind: "conc", Arg: concShard{Srcs: []int{a, b, c}, Bound: 1, Solo: solo(a, b, c)}})
 				}
 			}
 		}
